@@ -7,7 +7,7 @@
    function), clock readings are arguments of Take/Reset. *)
 From Coq Require Import List NArith ZArith Bool Permutation.
 Import ListNotations.
-Require Import Base.Wire Base.PyStr C19.Model C19.Spec C19.Ledger C19.Order C19.Rate C19.Drain C19.Encode C19.Refine C19.Live.
+Require Import Base.Wire Base.PyStr C19.Model C19.Spec C19.Ledger C19.Order C19.Rate C19.Drain C19.Encode C19.Refine C19.Live C19.Config.
 
 (* Ledger: after any history, the messages accepted so far are exactly (as a
    multiset of stamped entries) those delivered, those dropped by a filter,
@@ -202,3 +202,36 @@ Theorem C19_reconnect_only_idle : forall c filt s o s' evs,
   (exists now, o = Take now) /\ pending s' = [].
 Proof. exact reconnect_only_idle. Qed.
 Print Assumptions C19_reconnect_only_idle.
+
+(* Settings changed on the live bot.  A history may interleave calls with changes
+   of throttleTime, rateLimit.join, queuing.duplicates, ping, ping.interval
+   (run_x); every call runs under the configuration in force when it is made.
+   The ledger, no duplication and "only unencodable messages are discarded"
+   hold for all such histories. *)
+Theorem C19_ledger_any_settings : forall filt xs c c' s' evs,
+  run_x filt c st0 xs = (c', s', evs) ->
+  Permutation (accepted evs) (delivered evs ++ dropped evs ++ unsendable evs ++ flushed evs ++ pending s')
+  /\ NoDup (map fst (delivered evs ++ dropped evs ++ unsendable evs ++ flushed evs ++ pending s'))
+  /\ Forall (ev_sound filt) evs.
+Proof. exact ledger_x. Qed.
+Print Assumptions C19_ledger_any_settings.
+
+(* Priority and FIFO at any call made in a state reached by such a history. *)
+Theorem C19_order_any_settings : forall filt xs c0 c s evs0 o s' evs f e now,
+  run_x filt c0 st0 xs = (c, s, evs0) -> step c filt s o = (s', evs) ->
+  In (Took f e now) evs -> took_ok f e s'.
+Proof. exact took_in_order_x. Qed.
+Print Assumptions C19_order_any_settings.
+
+(* The spacing clauses use the values in force at the call: in the events of a
+   call made under configuration c (whatever the settings were before), every
+   release from the queue comes more than c's throttleTime after the previous
+   release attempt and every JOIN at least c's rateLimit.join after the last JOIN.
+   (A copy of the setting cached at connection time would falsify this.) *)
+Theorem C19_spacing_in_force : forall filt xs c0 c s evs0 o s' evs,
+  (0 <= c_throttle c)%Z -> join_is_low = true ->
+  run_x filt c0 st0 xs = (c, s, evs0) -> step c filt s o = (s', evs) ->
+  throttle_ok (c_throttle c) (Some (lastTake s)) evs = true
+  /\ joinrate_ok (c_join c) (Some (lastJoin s)) evs = true.
+Proof. exact spacing_in_force. Qed.
+Print Assumptions C19_spacing_in_force.
